@@ -297,6 +297,20 @@ def r2_zero_container(ctx, cfg='A', rule='C03.R2'):
     ext = [s for s in ff.calls() if s.name.startswith('std::collections::VecDeque::pop_')]
     if not (ctx.floor('zero-container insertion (%s)' % cfg, len(ins), 1) and ctx.floor('zero-container extraction (%s)' % cfg, len(ext), 1)):
         return
+    # only `add` files events into the zero-delay container: an event of the current instant that was filed in a bucket (scheduled
+    # earlier) keeps its place there - moving it over would put it behind events scheduled later for the same instant
+    zf = {receiver_field(fa.expr_operand(s.args[0], s.b, 'T')) for s in ins}
+    scope_a = {g.key for g in P.scope_of(fa.key)} | {fa.key}
+    foreign = []
+    owner_mod = fa.key.rsplit('::', 2)[0]
+    for g in P.fn_list:
+        if g.kind == 'promoted' or not g.key.startswith(owner_mod) or g.key in scope_a or (g.root or g.key) in scope_a:
+            continue
+        for c in g.calls():
+            if c.name.startswith('std::collections::VecDeque::push_') and c.args and receiver_field(g.expr_operand(c.args[0], c.b, 'T')) in zf:
+                foreign.append(c)
+    ctx.check(not foreign, 'zero-filled-by-add-only:%s' % cfg, 'events enter the zero-delay container through add alone (never moved over from a bucket)',
+              foreign[0].where() if foreign else fa.where(), [c.fn.key for c in foreign][:3])
     ends_in = {s.name.split('_')[-1] for s in ins}
     ends_out = {s.name.split('_')[-1] for s in ext}
     same_field = {receiver_field(fa.expr_operand(s.args[0], s.b, 'T')) for s in ins} == {receiver_field(ff.expr_operand(s.args[0], s.b, 'T')) for s in ext}
@@ -495,3 +509,7 @@ def run(ctx):
     ctx.cfg = 'A'
     r3_emission_order(ctx)
     r4_no_address_order(ctx)
+    # (R5) equal timestamps meet in one bucket: every insertion and look-up site derives the bucket from the timestamp by the same
+    # expression (shared with C01.R2) - a shortcut for "imminent" events files one of two equal-time events elsewhere
+    from .C01 import r2_bucket_index
+    r2_bucket_index(ctx, rule='C03.R5')
